@@ -393,8 +393,10 @@ def compute_gradient_and_dynamics(
         current_node, current_edges = _apply_system_superoperator(
             current_node, current_edges, second_half_prop.T)
 
+        # the environments act one after the other on the system leg, so
+        # going backwards they have to be undone in reversed order
         current_node, current_edges = _apply_pt_mpos(
-            current_node, current_edges, pt_mpos)
+            current_node, current_edges, pt_mpos, reverse=True)
 
         current_node, current_edges = _apply_system_superoperator(
             current_node, current_edges, first_half_prop.T)
